@@ -139,7 +139,7 @@ impl StateCheck for C09 {
 
 pub fn run(ctx: &Ctx) -> i32 {
     let shared = Shared::new("C09", ctx);
-    flow_models(ctx, &shared, C09, FlowSpec { quick_depth: 2, thorough_depth: 3, extra: vec![], deep: true, seeded: true, t3: true, valuesets: false });
+    flow_models(ctx, &shared, C09, FlowSpec { quick_depth: 2, thorough_depth: 3, extra: vec![], deep: true, heavy_oracle: true, seeded: true, t3: true, valuesets: false });
     finish(
         ctx,
         &shared,
